@@ -56,7 +56,7 @@ Proof.
       { intros w Hw. rewrite count_app, count_one. replace (pt_v p =? w) with false by lia. lia. }
       destruct ((mf >? count_v cm done + 1) || ((mf =? count_v cm done + 1) && (ct >? mt))) eqn:C.
       * apply IH; auto; try lia.
-        -- assert (mm <> cm) by (intro; subst mm; lia). rewrite Cw by assumption. reflexivity.
+        -- assert (mm <> cm) by (intro; subst mm; lia). rewrite Cw by assumption. exact Hmm.
         -- intro w. destruct (Z.eq_dec w cm) as [->|N]; [rewrite Cc; lia | rewrite Cw by assumption; apply Hall].
       * rewrite Ep. apply IH; auto; try lia.
         intro w. destruct (Z.eq_dec w cm) as [->|N]; [rewrite Cc; lia|].
